@@ -462,6 +462,42 @@ def gen():
     defB("TIMERS_IS_BTREEMAP_BY_TIMER_ID", "timers: BTreeMap<TimerId, E>" in ev)
     emit("")
 
+    # ---- adapters: the shape of the send / receive loops the Wire model assumes --------------
+    emit("(* adapters: loop shapes *)")
+    def recv_loop_ok(fname, data_arm_re):
+        tt = strip_comments(read(fname))
+        body = fn_body(tt, r"fn receive\s*\(&self,", fname + "::receive")
+        ok = bool(re.search(r"Ok\(0\)\s*=>\s*break ReadStatus::Disconnected", body))
+        m = re.search(data_arm_re, body, flags=re.S)
+        ok = ok and bool(m) and ("break" not in m.group(0)) and ("return" not in m.group(0))
+        ok = ok and bool(re.search(r"ErrorKind::Interrupted\s*=>\s*continue", body))
+        ok = ok and bool(re.search(r"ErrorKind::WouldBlock\s*=>\s*\{?\s*break ReadStatus::WaitNextEvent", body))
+        ok = ok and body.count("ReadStatus::WaitNextEvent") == 1
+        return ok
+    defB("TCP_RECEIVE_LOOP_OK", recv_loop_ok("adapters/tcp.rs", r"Ok\(size\)\s*=>\s*process_data\(&input_buffer\[\.\.size\]\),"))
+    defB("FRAMED_RECEIVE_LOOP_OK", recv_loop_ok("adapters/framed_tcp.rs", r"Ok\(size\)\s*=>\s*\{.*?\}\);\s*\}"))
+    wss = strip_comments(read("adapters/ws.rs"))
+    fr = strip_comments(read("adapters/framed_tcp.rs"))
+    sb = fn_body(fr, r"fn send\s*\(&self, data", "framed_tcp.rs::send")
+    lock_pos, loop_pos = sb.find("self.send_lock.lock()"), sb.find("loop {")
+    defB("FRAMED_SEND_LOCKED", 0 <= lock_pos < loop_pos and bool(re.search(r"let _\w+ = self\.send_lock\.lock\(\)", sb)))
+    wsb = fn_body(wss, r"fn receive\s*\(&self,", "ws.rs::receive")
+    m = re.search(r"Message::Binary\(data\)\s*=>\s*\{(.*?)\}\s*Message::Close", wsb, flags=re.S)
+    defB("WS_RECEIVE_LOOP_OK", bool(m) and "break" not in m.group(1) and "peek" not in wsb and "process_data(&data)" in m.group(1)
+         and bool(re.search(r"Err\(Error::Io\(ref err\)\)\s*=>\s*break Self::io_error_to_read_status\(err\)", wsb)))
+    wsend = fn_body(wss, r"fn send\s*\(&self, data", "ws.rs::send")
+    defB("WS_SEND_UNDER_STATE_LOCK", wsend.strip().startswith("let mut state = self.state.lock()"))
+    ub = fn_body(strip_comments(udp), r"fn receive\s*\(&self,", "udp.rs::receive")
+    defB("UDP_RECEIVE_NEVER_DISCONNECTS", "ReadStatus::Disconnected" not in ub)
+    up = fn_body(strip_comments(udp), r"fn pending\s*\(&self,", "udp.rs::pending")
+    defB("UDP_PENDING_ALWAYS_READY", up.strip() == "PendingStatus::Ready")
+    ka_ok = True
+    for f in ["adapters/tcp.rs", "adapters/framed_tcp.rs"]:
+        pb = fn_body(strip_comments(read(f)), r"fn pending\s*\(&self,", f + "::pending")
+        ka_ok = ka_ok and bool(re.search(r"if let Err\(e\) = socket\.set_tcp_keepalive\(keepalive\)\s*\{\s*log::warn!\([^;]*\);\s*\}\s*forget\(socket\);", pb))
+    defB("KEEPALIVE_SOCKET_ALWAYS_FORGOTTEN", ka_ok)
+    emit("")
+
     # ---- integer-encoding ------------------------------------------------------------------
     d, ver = registry_src("integer-encoding")
     vt = strip_comments(open(os.path.join(d, "src", "varint.rs")).read())
@@ -495,11 +531,28 @@ def gen():
     for k in ["max_message_size", "max_frame_size"]:
         m = re.search(r"\." + k + r"\(\s*Some\(\s*([A-Za-z_0-9: <]+?)\s*\)\s*\)", wss)
         cfgd[k] = eval_expr(m.group(1), {"MAX_PAYLOAD_LEN": facts["WS_MAX_PAYLOAD_LEN"]}) if m else None
+    defN("WS_LIB_READ_BUFFER_SIZE", dflt["read_buffer_size"])
+    # the size pre-checks of the adapters' send paths
+    m = re.search(r"fn send_packet\([^)]*\)[^{]*\{\s*if data\.len\(\) > ([A-Z_]+)\s*\{[^}]*return SendStatus::MaxPacketSizeExceeded;", strip_comments(udp))
+    defN("UDP_SEND_PRECHECK", eval_expr(m.group(1), cu) if m else 2**64 - 1, "send_packet rejects payloads above this before touching the socket" if m else "no pre-check: unlimited")
+    m = re.search(r"if data\.len\(\) > ([A-Z_]+)\s*\{[^}]*return SendStatus::MaxPacketSizeExceeded;", wss)
+    defN("WS_SEND_PRECHECK", eval_expr(m.group(1), {"MAX_PAYLOAD_LEN": facts["WS_MAX_PAYLOAD_LEN"]}) if m else 2**64 - 1)
+    both = bool(re.search(r"ws_connect\(url, stream, Some\(ws_config\(\)\)\)", wss)) and bool(re.search(r"ws_accept\(stream, Some\(ws_config\(\)\)\)", wss)) \
+        and bool(re.search(r"use tungstenite::\{accept_with_config as ws_accept\};", wss)) and bool(re.search(r"use tungstenite::client::\{client_with_config as ws_connect\};", wss))
+    defB("WS_CONFIG_ON_BOTH_HANDSHAKE_PATHS", both)
+    # the config function: limits configured from MAX_PAYLOAD_LEN
+    cf = re.search(r"fn ws_config\(\) -> WebSocketConfig \{(.*?)\n\}", wss, flags=re.S)
+    if cf:
+        for k in ["max_message_size", "max_frame_size"]:
+            mm = re.search(r"\." + k + r"\(\s*Some\(\s*([A-Za-z_0-9: <]+?)\s*\)\s*\)", cf.group(1))
+            if mm:
+                cfgd[k] = eval_expr(mm.group(1), {"MAX_PAYLOAD_LEN": facts["WS_MAX_PAYLOAD_LEN"]})
+    if not both:
+        cfgd = {"max_message_size": None, "max_frame_size": None}   # a limit not passed on every path does not count
     defN("WS_LIB_MAX_MESSAGE_SIZE", cfgd["max_message_size"] if cfgd["max_message_size"] is not None else dflt["max_message_size"],
          "configured by ws.rs" if cfgd["max_message_size"] is not None else "tungstenite default")
     defN("WS_LIB_MAX_FRAME_SIZE", cfgd["max_frame_size"] if cfgd["max_frame_size"] is not None else dflt["max_frame_size"],
          "configured by ws.rs" if cfgd["max_frame_size"] is not None else "tungstenite default")
-    defN("WS_LIB_READ_BUFFER_SIZE", dflt["read_buffer_size"])
     # number of handshake entry points that pass a config (must be all or none)
     facts["tungstenite_version"] = ver
     emit("")
